@@ -95,6 +95,14 @@ Theorem roundtrip_polygon_any_format : forall p bs, polygon_ok p -> encode_polyg
 Proof. exact roundtrip_polygon. Qed.
 Print Assumptions roundtrip_polygon_any_format.
 
+(** the tie rule of Polygon.encode: the snap level is the least level with the maximal count *)
+Theorem snap_level_is_least_most_frequent : forall ls,
+  let '(lv, h) := snap_choice ls in
+  0 <= lv <= 30 /\ (forall l, 0 <= l <= 30 -> count_level l ls <= h)
+  /\ (0 < h -> count_level lv ls = h /\ forall l, 0 <= l < lv -> count_level l ls < h).
+Proof. exact snap_choice_least_max. Qed.
+Print Assumptions snap_level_is_least_most_frequent.
+
 Theorem encode_twice_same_bytes : forall p b1 b2, encode_polygon p = Some b1 -> encode_polygon p = Some b2 -> b1 = b2.
 Proof. exact encode_deterministic. Qed.
 Print Assumptions encode_twice_same_bytes.
